@@ -66,6 +66,16 @@ def state_exhaustive(ctx, L, rule="R-STATE-EXHAUSTIVE"):
         ctx.unknown(rule, "only %d state stores found" % len(stored))
 
 
+def job_funcs(ctx, L):
+    """the job pass and the private helpers only it reaches (a later clean-up may have split the pass up)"""
+    from .common import is_helper, owners
+    out = [L.job]
+    for fn in ctx.prog.all_funcs():
+        if fn.cls is not None and fn.cls.name == L.cls and fn is not L.job and is_helper(fn) and owners(ctx, fn) == {L.job.qual}:
+            out.append(fn)
+    return out
+
+
 def job_subscript(ctx, L, rule="R-JOB-SUBSCRIPT"):
     """no unprotected T[k] / del T[k] in the job thread on a table another role deletes from"""
     tables = ["_rcv_buffer", "_snd_buffer"] + (["_multi_pg_snd_buffer"] if L.fd else [])
@@ -84,9 +94,13 @@ def job_subscript(ctx, L, rule="R-JOB-SUBSCRIPT"):
             if isinstance(n, ast.Call) and isinstance(n.func, ast.Attribute) and n.func.attr in ("pop", "clear", "popitem") \
                     and isinstance(n.func.value, ast.Attribute) and n.func.value.attr in tables:
                 deleters[n.func.value.attr].append((fn, n))
-    pm = parents(L.job.node)
+    pm = {}
+    jnodes = []
+    for jf in job_funcs(ctx, L):
+        pm.update(parents(jf.node))
+        jnodes.extend(ast.walk(jf.node))
     count = 0
-    for n in ast.walk(L.job.node):
+    for n in jnodes:
         if isinstance(n, ast.Subscript) and isinstance(n.value, ast.Attribute) and isinstance(n.value.value, ast.Name) \
                 and n.value.value.id == "self" and n.value.attr in tables and isinstance(n.ctx, (ast.Load, ast.Del)):
             t = n.value.attr
@@ -101,7 +115,7 @@ def job_subscript(ctx, L, rule="R-JOB-SUBSCRIPT"):
                 d = deleters[t][0]
                 ctx.violated(rule, L.job, inst, "the receive path deletes entries of %s (%s line %d) between the key snapshot and this "
                              "subscript: KeyError ends the job thread for good" % (t, d[0].name, d[1].lineno), n)
-    for n in ast.walk(L.job.node):
+    for n in jnodes:
         if isinstance(n, ast.Call) and isinstance(n.func, ast.Attribute) and n.func.attr in ("get", "pop") \
                 and isinstance(n.func.value, ast.Attribute) and isinstance(n.func.value.value, ast.Name) \
                 and n.func.value.value.id == "self" and n.func.value.attr in tables:
@@ -121,7 +135,7 @@ def snapshot(ctx, L, rule="R-SNAPSHOT"):
     """job-thread loops over the shared tables iterate a copy"""
     tables = ["_rcv_buffer", "_snd_buffer"] + (["_multi_pg_snd_buffer"] if L.fd else [])
     n = 0
-    for node in ast.walk(L.job.node):
+    for node in [x for jf in job_funcs(ctx, L) for x in ast.walk(jf.node)]:
         if isinstance(node, ast.For):
             names = [x.attr for x in ast.walk(node.iter) if isinstance(x, ast.Attribute) and x.attr in tables]
             if not names:
